@@ -89,6 +89,10 @@ func both(f, g func()) {
 }
 
 func runRace(t vkit.TB, c RaceCase) {
+	if len(c.Mode) > 5 && c.Mode[:5] == "rate/" {
+		runRateRace(t, c)
+		return
+	}
 	cleanup := time.Duration(c.CleanupMs) * time.Millisecond
 	if cleanup <= 0 {
 		cleanup = time.Hour
@@ -237,6 +241,21 @@ func TestRaces(t *testing.T) {
 			cleanupMs = 1 // the periodic cleanup contends as well
 		}
 		runRace(t, RaceCase{Mode: mode, Rounds: rounds, CleanupMs: cleanupMs})
+		if t.Failed() {
+			return
+		}
+	}
+}
+
+// TestRateRaces: concurrent first contact of a fresh key (see raterace_test.go).
+func TestRateRaces(t *testing.T) {
+	perMode := vkit.PerShard(vkit.Pick(32000, 320000))
+	for _, mode := range rateRaceModes {
+		rounds := perMode
+		if mode == "rate/first-connect-handshakes" {
+			rounds = perMode / 5 // a mini-server and G connections per round
+		}
+		runRace(t, RaceCase{Mode: mode, Rounds: rounds})
 		if t.Failed() {
 			return
 		}
